@@ -196,7 +196,16 @@ func Connect(p *Proxy, alpn []string, remote *net.TCPAddr) (*ClientConn, error) 
 // ConnectPreamble is Connect with octets the client sends ahead of its ClientHello (a PROXY protocol line, say);
 // a TLS server has no use for them and refuses the handshake.
 func ConnectPreamble(p *Proxy, alpn []string, remote *net.TCPAddr, preamble []byte) (*ClientConn, error) {
-	raw, _, err := p.Ln.Dial(DialOpts{Remote: remote})
+	return connect(p, alpn, remote, preamble, nil)
+}
+
+// ConnectHooks is Connect with fault hooks on the proxy's side of the connection.
+func ConnectHooks(p *Proxy, alpn []string, remote *net.TCPAddr, hooks *Hooks) (*ClientConn, error) {
+	return connect(p, alpn, remote, nil, hooks)
+}
+
+func connect(p *Proxy, alpn []string, remote *net.TCPAddr, preamble []byte, hooks *Hooks) (*ClientConn, error) {
+	raw, _, err := p.Ln.Dial(DialOpts{Remote: remote, ServerHooks: hooks})
 	if err != nil {
 		return nil, err
 	}
